@@ -71,7 +71,7 @@ Print Assumptions C05_only_sends_forward.
    reply-slot rules forbid it *)
 Theorem C05_delivered : forall cf st c m r,
   wf_event st (ESend c m) = true -> restrictive cf = false -> resolve st (m_dest m) = Some r ->
-  (0 <? m_nfds m) && negb (conn_fds st r) = false -> is_full st r = false ->
+  (0 <? m_nfds m) && negb (conn_fds st r) = false -> is_full st r = false -> unknown_type m = false ->
   (is_call m = false \/ m_noreply m = true \/
    ((forall p, In p (st_pend st) -> pend_match c r (m_serial m) p = false) /\ count_get c (st_pend st) < max_replies cf)) ->
   snd (step cf st (ESend c m)) = (r, OFwd c m) :: eav_out cf st c r m.
